@@ -373,6 +373,12 @@ pub fn run_scenario(sc: &Value) -> Vec<Value> {
                 m.insert("ev".into(), json!("Load"));
                 m.insert("len".into(), json!(b.len()));
                 m.insert("arch".into(), json!(archives.len()));
+                // (passwords of the loaded archive's encrypted entries, so that their content can be compared after append rounds)
+                if let Some(a) = op.get("pws").and_then(|x| x.as_array()) {
+                    for p in a {
+                        pws.push(unhex(p.as_str().unwrap_or("")));
+                    }
+                }
                 archives.push(b);
                 ex.ev(m);
             }
